@@ -78,7 +78,7 @@ package sse
 //@ pure phys(q, k) = ringidx(q.head, len(q.buf), k)
 //@ pure at(q, k) = q.buf[phys(q, k)]
 //@ pure live(q, i) = ite(q.head + q.count <= len(q.buf), q.head <= i && i < q.head + q.count, i >= q.head || i < q.head + q.count - len(q.buf))
-//@ pure deadzero(q) = forall(i, 0, len(q.buf), !live(q, i) ==> q.buf[i] == zeroelem(q.buf))
+//@ pure deadzero(q) = forall(i, 0, cap(q.buf), !(i < len(q.buf) && live(q, i)) ==> q.buf[i] == zeroelem(q.buf))
 
 //@ func queue.enqueue
 //@   requires q != nil && wf(q) && len(q.buf) > 0
@@ -109,7 +109,6 @@ package sse
 //@   ensures wf_kept: wf(q) && len(q.buf) == newSize && q.head == 0 && q.count == old(q.count)
 //@   ensures view_kept: forall(k, 0, q.count, at(q, k) == old(at(q, k)))
 //@   ensures dead_slots_zero: deadzero(q)
-//@   ensures no_hidden_slots: cap(q.buf) == len(q.buf)
 
 //@ opaque intersects(a, b) = exists(i, 0, len(a), exists(j, 0, len(b), a[i] == b[j]))
 
